@@ -9,6 +9,7 @@ import json
 import os
 import random
 
+import bindtie      # WP-D: translator tie of the binder classes, the wrap/bind shell (notes/bindshell.md)
 import impl
 import lib
 from lib import coq_bool, coq_list, coq_nat, coq_opt, coq_pair
@@ -22,7 +23,7 @@ BCLS = ["AnyParamKindBinding", "PosArgsKwargsBinding", "PosKwdKwargsBinding", "P
         "KwdArgsBinding", "KwdKwargsBinding", "KwdBinding", "ArgsKwargsBinding", "KwargsBinding",
         "ArgsBinding", "PosOrKwdBinding"]
 ANN = ["int", "str", "float", "decimal.Decimal", "fractions.Fraction"]
-COQ_TARGETS = ["theories/Proofs/BindingLemmas.vo", "theories/Model/BindingEq.vo"]
+COQ_TARGETS = sorted({"theories/Proofs/BindingLemmas.vo", "theories/Model/BindingEq.vo"} | set(bindtie.COQ_TARGETS))
 
 
 # ----------------------------------------------------------------------------------
@@ -57,11 +58,15 @@ def prove(run: lib.Run):
     if ok:
         run.compile_dyn("C10.v", src=os.path.join(lib.DYN, "C10", "C10.v"),
                         theorems=["C10_matrix_ok", "C10_converts", "C10_rejected_or_shape"])
+    bindtie.prove(run)      # GenBinderModes.v + C10Modes.v (source tie), Props/C10Shell.v, C10Shell.v
     run.assumptions += [
-        "C10: CPython's binding rule is the specification (expected_pos/expected_kw); it is compared with the "
-        "interpreter and inspect.Signature.bind on every generated call by the oracle",
-        "C10: posmode_of/kwmode_of (my reading of the 16 __call__ bodies) is tied by the binder-class correspondence",
-        "C10: functools.wraps metadata and the call of f itself are interpreter behaviour, exercised by the oracle only",
+        "C10: CPython's binding rule is the specification (expected_pos/expected_kw; py_bind for defaults, *args, **kwargs); "
+        "it is compared with the interpreter and inspect.Signature.bind on every generated call by the oracle and with the "
+        "interpreter on every bind-shell case",
+        "C10: posmode_of/kwmode_of (the reading of the 16 __call__ bodies) is tied twice: by the translator (ast of binding.py "
+        "-> idiom pairs, C10_modes_tied) and by the binder-class correspondence",
+        "C10: functools.wraps and the call of f are modelled (Model/BindingShell.v: wraps, call_fn) and tied by the "
+        "bind-shell / wrap-meta correspondence",
     ]
 
 
@@ -363,6 +368,7 @@ def correspond(run: lib.Run):
         run.record_corr("get_binding", len(cases2), [cases2[i] for i in bad2],
                         len({c["def"] for c in cases2}), dist2)
     run.samples.append(cases2[0])
+    bindtie.correspond(run)     # streams bind-shell, wrap-meta
 
 
 # ----------------------------------------------------------------------------------
@@ -512,8 +518,9 @@ def search(run: lib.Run, broken):
                 "keyword-capable names x 0-2 extra keywords (incl. names of positional-only/var params); "
                 "non-trivial = accepted by the interpreter",
     }
+    out = out + bindtie.search(run, broken)     # keyword names, class hierarchies under wrap(cls)
     if out:
-        run.samples.append({"oracle_failure": {k: v for k, v in out[0].items() if k != "source"}})
+        run.samples.append({"oracle_failure": {k: v for k, v in out[0].items() if k not in ("source", "hierarchy")}})
     return out
 
 
@@ -522,6 +529,8 @@ def search(run: lib.Run, broken):
 # ----------------------------------------------------------------------------------
 
 def replay(payload):
+    if payload.get("hierarchy") or payload.get("reserved"):
+        return bindtie.replay(payload)
     sig = payload["sig"]
     ns, _ = build_forms(sig)
     impl.clear_caches()
